@@ -11,6 +11,9 @@ CONSTANTS
   MayFail = TRUE
   OutcomeSet = {"crash"}
   BackedSet = {FALSE}
+  FilterSet = {FALSE}
+  Budget = 2
+  BudgetMode = "per-load"
   RecordMode = "component"
   PoolSet = {FALSE, TRUE}
   AssembleMode = "index"
